@@ -1208,6 +1208,12 @@ func (db *DB) allocate(txid common.Txid, count int) (*common.Page, error) {
 	// Resize mmap() if we're at the end.
 	p.SetId(db.rwtx.meta.Pgid())
 	var minsz = int((p.Id()+common.Pgid(count))+1) * db.pageSize
+	if common.VerifEnabled {
+		// fault injection point: the size-limit refusal of this allocation
+		if db.verifSizeCheck(txid, count) {
+			return nil, berrors.ErrMaxSizeReached
+		}
+	}
 	if db.MaxSize > 0 {
 		nextAllocSize := minsz
 		nextMmapSize, err := db.mmapSize(minsz)
